@@ -262,7 +262,7 @@ def _shape(toks):
 BAD_LITERALS = {
     # column type -> (column, its registered value, literals)
     'Bool': ('IsDir', ['maybe', '2', 'TRUE', 'tru', '-1', 'yes ', 'on', 'nul']),
-    'DateTime': ('Modified', ['-ab', '+x', '-', '+', '٢٠٢٣-01-01', '2021-01-01 ٢٣', '2021-13-45', '2021-02-30', '2021-01-01 25', '2021-01-01 10:61', '2021-01-01 10:10:61', '0000-00-00', '-99999999999999999', '+99999999999',
+    'DateTime': ('Modified', ['-ab', '+x', '-', '+', '٢٠٢٣-01-01', '2021-01-01 ٢٣', '2021-13-45', '2021-02-30', '2021-01-01 25', '2021-01-01 10:61', '2021-01-01 10:10:61', '0000-00-00', '-99999999999999999', '+99999999999', '-100000000',
                               'garbage', 'yesterdayx', '+1', '-999', '1969-12-31', '9999-12-31', 'x']),
     'Int': ('Size', ['abc', '1.5.5k', '-', '٣', '99999999999999999999', 'nan', '9999999999999999999999k', 'kb', '.', '-k']),
     'String': ('Name', ['[', '(', '(?P<', '\\', '*[', '%[', 'a{2', '**', '']),
@@ -339,7 +339,7 @@ def col_sql(c):
 
 # queries that must be REJECTED (status 2, no row): a bracket closed by the other kind
 E2E_REJECT = ["lower{name) from R0", "lower(name} from R0", "substr{name, 1, 2) from R0", "name from R0 where (size > 1}", "name from R0 where {size > 1)"]
-E2E_BAD = ["name from 't[' depth 1 rx", "size, count(*) from R0 group by size limit 9", "name from 'R0/(' rx", "name from R0 where name =~ '['", "name from R0 where name like '%['", "name from R0 where is_dir = maybe",
+E2E_BAD = ["name from 't[' depth 1 rx", "size, count(*) from R0 group by size limit 9", "name from R0 order by (size + 1) * 2, -size desc", "name from 'R0/(' rx", "name from R0 where name =~ '['", "name from R0 where name like '%['", "name from R0 where is_dir = maybe",
            "name from R0 where size = 'abc'", "name, substr(name, 'x') from R0", "name from R0 order by 7", "name from R0 limit x", "name from R0 into nope",
            "name from R0 where name = 'a' and", "name from R0 where (size > 1", "min(name), name from R0 group by", "name from R0 where size between 1"]
 
@@ -350,7 +350,7 @@ def fam_e2e_bad(sess):
     from drivers import e2e
     prog = sess.prog
     fam = 'e2e_bad'
-    qs = (E2E_BAD if sess.tier != 'quick' else E2E_BAD[:9]) + (E2E_REJECT if sess.tier != 'quick' else E2E_REJECT[:3])
+    qs = (E2E_BAD if sess.tier != 'quick' else E2E_BAD[:10]) + (E2E_REJECT if sess.tier != 'quick' else E2E_REJECT[:3])
     sess.bounds[fam] = {'queries': qs, 'nodes': 3, 'must be rejected with status 2': E2E_REJECT}
     for text in qs:
         ex = sess.executor(e2e.overrides(), unwind=403, maxsteps=4000000)
